@@ -21,7 +21,9 @@ RULE = (
     "Hypothesis-generated pipelines: producer in {data function, dds.keep call site}, load placed in {root, helper, helper "
     "of helper, kept function, helper under a kept function}, order in {producer in an earlier evaluation, earlier in the same "
     "evaluation, later in the same evaluation, never produced}, padded with unrelated statements; histories: evaluate, edit "
-    "the producer's tracked variable or body, optionally re-evaluate the producer, evaluate again, no-op re-evaluation; stores "
+    "the producer's tracked variable or body, move the producer before / after the load or out of the evaluated function "
+    "(in-process or across a restart), optionally re-evaluate the producer, evaluate again, no-op re-evaluation; two templates: "
+    "keep first in the source but executed after the load, and a reader whose module imports dds only inside the function; stores "
     "{memory, local, local+LRU}. Oracles: value == reference interpreter (load = latest value kept in program order, else the "
     "committed one); a kept reader runs iff the value served at the path is new to it; read-before-produce and never-produced "
     "raise a DDSException. Non-trivial = the served value changed at least once during the history, or the load precedes its "
